@@ -21,7 +21,10 @@ use emmylua_code_analysis::{
     uri_to_file_path,
 };
 use lsp_types::InitializeParams;
+#[cfg(not(feature = "verif-hooks"))]
 use tokio::sync::RwLock;
+#[cfg(feature = "verif-hooks")]
+use crate::verif::RwLock;
 
 pub async fn initialized_handler(
     context: ServerContextSnapshot,
